@@ -45,16 +45,7 @@ theorem cntBody_step (e : V) (a r s : Nat) (kc bc : List V → M) :
   | py v => cases v <;> simp [isRuleLikeM, isinstanceM, isStr, isK, kindOfV, h1]
   | rule x => simp [isRuleLikeM, isK, kindOfV, h1]
   | attrs x => simp [isRuleLikeM, isK, kindOfV, h1]
-  | set x => simp [isRuleLikeM, isinstanceM, isK, kindOfV]
-  | inq x => simp [isRuleLikeM, isinstanceM, isK, kindOfV]
-  | seq x => simp [isRuleLikeM, isinstanceM, isK, kindOfV]
-  | policy x => simp [isRuleLikeM, isinstanceM, isK, kindOfV]
-  | other => simp [isRuleLikeM, isinstanceM, isK, kindOfV]
-  | checker x => simp [isRuleLikeM, isinstanceM, isK, kindOfV]
-  | storage x => simp [isRuleLikeM, isinstanceM, isK, kindOfV]
-  | lazySeq x n => simp [isRuleLikeM, isinstanceM, isK, kindOfV]
-  | pattern x => simp [isRuleLikeM, isinstanceM, isK, kindOfV]
-  | obj x => simp [isRuleLikeM, isinstanceM, isK, kindOfV]
+  | _ => simp [isRuleLikeM, isinstanceM, isK, kindOfV]      -- every other kind of object (whatever kinds are added later)
 
 theorem cnt_loop (es : List V) :
     ∀ (a r s : Nat) (rest : List V → M),
